@@ -161,11 +161,69 @@ def rule_r4(ctx):
         ctx.fail(r, fini, "held message not freed", fini.line, "pull0_pipe_fini no longer frees p->m")
 
 
+def rule_r7(ctx):
+    r = ctx.rule("C06.R7", "T2", "a failed transfer ends the pipe's service: in a protocol's pipe aio callback, once the failure branch "
+                 "(nni_aio_result != 0) has closed the pipe, nothing more is done with that pipe -- it is not offered for the next "
+                 "send, scheduled or read from; falling through into the success path hands queued messages to a dead pipe "
+                 "(they are freed while their senders were told they succeeded)", floor=25)
+    prog = ctx.prog
+    HARMLESS = ("nni_mtx_unlock", "nni_mtx_lock", "nni_msg_free", "nni_aio_set_msg", "nni_aio_get_msg", "nni_pipe_close", "nni_stat_inc",
+                "nni_pipe_bump_error", "nni_aio_result", "nni_pipe_id", "nng_log_debug", "nng_log_warn")
+    n = 0
+    for (ifn, aioexpr, cb, arg, site) in prog.aio_callbacks():
+        lf = last_field(ifn.expand(aioexpr)) or ""
+        if "/protocol/" not in "/" + ifn.file or "_pipe." not in lf:
+            continue
+        g = prog.fn(cb, ifn.file)
+        if g is None or g.cfg_failed or not g.params:
+            continue
+        # the pipe object: the callback's argument or the single local initialised from it
+        pv = {g.params[0]["n"]}
+        for t in g.sites():
+            if t.node.get("k") == "decls":
+                for d in t.node["d"]:
+                    e = g.expand(d["init"]) if d.get("init") is not None else None
+                    while e is not None and e.get("k") == "cast":
+                        e = e["e"]
+                    if e is not None and e.get("k") == "var" and e["n"] in pv:
+                        pv.add(d["n"])
+        fail_edges = {}
+        for bid, k, atom, val in G.edge_facts(g):
+            if atom.get("k") == "call" and atom.get("fn") == "nni_aio_result" and atom["args"] and last_field(g.expand(atom["args"][0])) == lf:
+                if val:
+                    fail_edges[bid] = k
+        for b, k in G.nz_edges(g, lambda m: m.get("k") == "call" and m.get("fn") == "nni_aio_result").items():
+            fail_edges.setdefault(b, k)
+        for c in g.calls("nni_pipe_close"):
+            if not fail_edges or not G.dominated(g, (c.b, c.i), fail_edges):
+                continue
+            n += 1
+            after = g.reach((c.b, c.i + 1))
+            bad = None
+            for c2 in g.calls():
+                if (c2.b, c2.i) not in after or c2.node.get("fn") in HARMLESS:
+                    continue
+                if any(a is not None and any(x.get("k") == "var" and x["n"] in pv for x in walk(g.expand(a))) for a in c2.node["args"]):
+                    bad = c2
+                    break
+            if bad is not None:
+                ctx.fail(r, g, "%s after the failed pipe was closed" % (bad.node.get("fn") or "call"), bad.line,
+                         "%s closes the pipe at line %s because its %s failed and then still reaches %s (line %s) with that pipe: "
+                         "the dead pipe is treated as ready and is given messages that can never be transmitted"
+                         % (g.name, c.line, lf.split(".")[1], show(bad.node)[:60], bad.line), g.path_lines(
+                             g.find_path((c.b, c.i + 1), lambda b_, i_: (b_, i_) == (bad.b, bad.i))))
+            else:
+                r.ob(g, "failure branch of %s: pipe closed and left alone" % lf)
+    if n < 25:
+        raise AnalysisBroken("only %d failure branches that close the pipe found" % n)
+
+
 def run(ctx):
     ctx.guard(rule_r1)
     ctx.guard(rule_r2)
     ctx.guard(rule_r3)
     ctx.guard(rule_r4)
+    ctx.guard(rule_r7)
     from . import c03, c18
     ctx.guard(c03.rule_o7)
     ctx.guard(c18.rule_r8)
